@@ -575,7 +575,49 @@ def flow_corpus() -> List[dict]:
     return out
 
 
+def check_request_max(ctx: Ctx) -> None:
+    """HTTP/2 connections that reach keep_alive_max_requests: every request an application instance answers must get that
+    response - also the one that trips the maximum and the ones still open at that moment (known finding F48).  A client
+    that parses the server's frames itself (it does not stop at GOAWAY), one HEADERS frame per read, both workers."""
+    from ..core import h2raw as RH
+    ok_script = [["recv_body"], ["send", {"type": "http.response.start", "status": 200, "headers": [(b"content-length", b"2")]}],
+                 ["send", {"type": "http.response.body", "body": b"ok"}]]
+    for L, n in ((0, 1), (1, 2), (2, 3), (3, 2), (1000, 3)):
+        for worker in ("asyncio", "trio"):
+            async def client(io):
+                cl = RH.RogueH2()
+                await io.send(cl.out())
+                cl.feed(io.take())
+                for i in range(n):
+                    if io.closed_at is not None:
+                        break
+                    cl.request(C.h2_headers("GET", f"/r{i}"))
+                    await io.send(cl.out())
+                    cl.feed(io.take())
+                await io.sleep(0.5)
+                cl.feed(io.take())
+                return cl.summary()
+            res = R.RUNNERS[worker]({"keep_alive_max_requests": L, "keep_alive_timeout": 3}, "h2", client, [ok_script], tail=8)
+            ctx.evaluations += 1
+            ctx.count("request_max.worker", worker)
+            case = {"family": "request_max", "L": L, "requests": n, "worker": worker}
+            cr = res.get("client_result")
+            if res.get("stuck_session") or res["error"] or cr is None or cr["parse_error"]:
+                ctx.violation("handler_exception", case, {"error": res["error"], "client": res.get("client_error")}, {"family": "request_max", "worker": worker})
+                continue
+            served = sorted(2 * int(a["scope"]["path"][2:]) + 1 for a in res["apps"])
+            ctx.distinct(["request_max", L, n, worker])
+            for idx, sid in enumerate(served):
+                st = cr["streams"].get(str(sid)) or {}
+                ctx.count("request_max.response", "complete" if st.get("ended") and st.get("status") == 200 and st.get("data") == 2 else "lost")
+                if not (st.get("ended") and st.get("status") == 200 and st.get("data") == 2):
+                    ctx.violation("response_of_served_request_lost", case, {"sid": sid, "request_number": idx + 1, "client_saw": st, "goaways": cr["goaways"]},
+                                  {"family": "request_max", "worker": worker, "proto": "2",
+                                   "when": "request_max_tripped" if len(served) >= L + 1 else "below_request_max"})
+
+
 def run(ctx: Ctx) -> None:
+    check_request_max(ctx)
     n = ctx.budget(500, 8000)
     cases = carrier_corpus() + flow_corpus() + [gen_case(ctx) for _ in range(n)]
     # boundary corpus: every status x method on every protocol once (small bodies)
@@ -590,6 +632,9 @@ def run(ctx: Ctx) -> None:
 
 
 def replay(ctx: Ctx, case: dict) -> None:
+    if case.get("family") == "request_max":
+        check_request_max(ctx)
+        return
     normalise_via(case)
     if case.get("family") == "wire":
         check_wire(ctx, [case["scenario"]])
